@@ -443,12 +443,12 @@ def outcome_class(r, stub):
 def generate(rng, tier, outdir):
     w = CaseWriter(outdir, IMPORTS, case_types=CASE_TYPES)
     quick = tier == "quick"
-    n_sorted = 220 if quick else 4000
-    n_unsorted = 150 if quick else 3000
-    n_weights = 420 if quick else 8000
-    n_law = 22 if quick else 300
-    n_public = 60 if quick else 800
-    n_gates = 24 if quick else 200
+    n_sorted = 220 if quick else 2500
+    n_unsorted = 150 if quick else 2000
+    n_weights = 420 if quick else 5000
+    n_law = 22 if quick else 200
+    n_public = 60 if quick else 500
+    n_gates = 24 if quick else 150
     skipped = 0
 
     # ---------------- sorted generator: sequence of yields, spec and machine ----------------
@@ -719,7 +719,7 @@ def gen_gates(rng, tier, w, n):
         if n_joint(probs) > 4000:
             continue
         r0 = int(rng.integers(0, 10))
-        N = "inf" if r0 == 0 else Fraction(int(rng.integers(1, 3000))) if r0 < 7 else Fraction(int(rng.integers(2, 400)), 2)
+        N = "inf" if r0 == 0 else Fraction(int(rng.integers(1, 40))) if r0 < 4 else Fraction(int(rng.integers(1, 3000))) if r0 < 7 else Fraction(int(rng.integers(2, 120)), 2)
         if not gates_safe(probs, N):
             w.count("gates.skipped_near_boundary", "+".join(combo))
             continue
